@@ -32,15 +32,16 @@ def load_program(src):
 class Gen:
     """Generator of well-founded programs in the documented grammar."""
 
-    def __init__(self, r, features):
+    def __init__(self, r, features, inputs=None):
         self.r = r
         self.feat = features
+        self.forced_inputs = inputs
 
     def program(self):
         r = self.r
         k = r.randint(2, 6)
         names = [f"S{i}" for i in range(k)]
-        inputs = ["A", "B"] if r.random() < 0.6 else ["A"]
+        inputs = self.forced_inputs or (["A", "B"] if r.random() < 0.6 else ["A"])
         start, marker = {}, {}
         for n in names:
             start[n] = r.choice([0, 0, 0, 0, 1, '"A_0"', None, None])
@@ -54,6 +55,15 @@ class Gen:
                 marker[names[idx]] = None
         # a series with start = 1 stands for "identity + higher orders": its zeroth order must be exactly the
         # identity, so it is defined (like U in the shipped algorithms) from earlier series that start at 0
+        herm_struct = {}
+        for idx in range(k):
+            n = names[idx]
+            if n not in twins and n not in twins.values() and r.random() < 0.15:
+                pool = inputs + [m for m in names[:idx] if start[m] != 1]
+                herm_struct[n] = r.choice(pool)
+                start[n] = r.choice([0, None])
+                marker[n] = None
+        self.herm_struct = herm_struct
         loose = set()
         for idx, n in enumerate(names):
             if start[n] == 1 and r.random() < 0.3:
@@ -94,6 +104,9 @@ class Gen:
             if n in twins:
                 lines.append(f'        "{twins[n]}".adj')
                 continue
+            if n in herm_struct:
+                lines.append(f'        "{herm_struct[n]}" + "{herm_struct[n]}".adj')
+                continue
             conds = []
             for _ in range(r.choice([1, 1, 2, 3])):
                 cond = r.choice([None, None, "diagonal", "offdiagonal", "lower" if (not marker[n] and r.random() < 0.3) else None])
@@ -126,6 +139,13 @@ class Gen:
             d, s = r.choice(pairs)
             ok_now = self.names.index(d) < idx or (self.start[d] == 0 and self.start[s] == 0)
             if ok_now:
+                ms = [m for m in self.herm_struct if self.names.index(m) < idx or
+                      (self.start[m] == 0 and self.start[d] == 0 and self.start[s] == 0)]
+                if ms and r.random() < 0.5:
+                    m = r.choice(ms)
+                    p = f"{d} @ {m} @ {s}"  # S† M S with M = X + X†: Hermitian by construction
+                    self.products[p] = self.products.get(p, False) or r.random() < 0.8
+                    return p, [d, m, s]
                 p = f"{d} @ {s}"
                 self.products[p] = self.products.get(p, False) or r.random() < 0.8
                 return p, [d, s]
@@ -196,7 +216,7 @@ class Prop:
     probes = ["family_G", "family_T", "family_S", "compared", "value_nonzero", "internal_after_output", "product_requested",
               "hermitian_product", "marker_hermitian", "marker_antihermitian", "clause_diagonal", "clause_offdiagonal",
               "clause_lower", "fn_call", "fn_series_arg", "division", "ifexp", "start_one", "start_input", "start_none",
-              "two_block_optimized", "commuting_false", "offdiag_present", "program_rejected", "eviction_observed",
+              "two_block_optimized", "commuting_false", "offdiag_present", "program_rejected", "prelude_program", "hermitian_product_3", "eviction_observed",
               "recompute_after_eviction"]
     components_real = ["pymablock.algorithm_parsing (compiler, series_computation), pymablock.series, pymablock.algorithms, "
                        "block_diagonalize wiring of scope (family S)"]
@@ -252,6 +272,11 @@ class Prop:
                 "inputs": {n: {"pz": r.choice([0.0, 0.2, 0.5]), "zero0": r.random() < 0.3, "iseed": r.randrange(1 << 30)} for n in inputs},
                 "flag": r.random() < 0.5, "flags": [r.random() < 0.5 for _ in range(nb)]}
         case["ops"] = self._schedule(r, inputs + names + products, outputs, nb, ninf, cap, tier)
+        if r.random() < 0.3:
+            # the same process compiled another algorithm of the same name before (notebook / REPL re-definition)
+            g2 = Gen(r, dict(self.features), inputs=inputs)
+            src2, names2, products2, _ = g2.program()
+            case["prelude"] = {"src": src2, "ops": self._schedule(r, inputs + names2 + products2, names2[-1:], nb, ninf, cap, tier)[:8]}
         return case
 
     def gen_T(self, r, tier):
@@ -293,6 +318,22 @@ class Prop:
 
     # ------------------------------------------------------------------ execution
     def execute(self, case):
+        pre = case.get("prelude")
+        out0 = None
+        if pre and case["family"] == "G":
+            sub = {k: v for k, v in case.items() if k != "prelude"}
+            sub.update(src=pre["src"], ops=pre["ops"])
+            out0 = self._execute_one(sub, clear=False)
+            if out0["violation"]:
+                return out0
+        out = self._execute_one(case, clear=True)
+        if out0 is not None:
+            out["counters"]["prelude_program"] = 1
+            out["events"] += out0["events"]
+            out["digest"] = hashlib.sha256((out0["digest"] + out["digest"]).encode()).hexdigest()
+        return out
+
+    def _execute_one(self, case, clear=True):
         from pymablock import algorithms
         from pymablock.algorithm_parsing import _parse_algorithm, series_computation
         from pymablock.series import PENDING, BlockSeries, one, zero
@@ -496,7 +537,8 @@ class Prop:
         for k, v in stats.items():
             bump(k, v)
         try:
-            _parse_algorithm.cache_clear()
+            if clear:
+                _parse_algorithm.cache_clear()
             linecache.cache.pop(getattr(algo, "__code__", None) and algo.__code__.co_filename, None) if fam == "G" else None
         except Exception:
             pass
@@ -537,6 +579,8 @@ class Prop:
 
         if re.search(r'with "[^"]+ @ [^"]+":\n        hermitian', src):
             bump("hermitian_product")
+        if re.search(r'with "[^"@]+ @ [^"@]+ @ [^"]+":\n        hermitian', src):
+            bump("hermitian_product_3")
 
     @staticmethod
     def _input_table(name, spec, nb, ninf, hermitian, block_diag0, zero):
